@@ -49,17 +49,21 @@ def ReadFuel (st : List Nat) (read : Nat → St → Res Fetched) : Prop :=
   ∀ c s, c < P.n → s.stack = st → NoOOF (read c s) ∧
     ∀ v hs s', read c s = .ok (v, hs, s') → s'.stack = st
 
-theorem wf_callees (hW : P.Wf) {j : Nat} (hj : j < P.n) :
-    ∀ c ∈ callees env (P.node j).body, c < P.n := by
+theorem wf_allCallees (hW : P.Wf) {j : Nat} (hj : j < P.n) :
+    ∀ c ∈ allCallees (P.node j).body, c < P.n := by
   intro c hc
   have hmem : P.node j ∈ P.nodes := by
     unfold Prog.node Prog.n at *
     rw [List.getD_eq_getElem?_getD, List.getElem?_eq_getElem hj]
     exact List.getElem_mem hj
-  exact hW _ hmem c (callees_sub_all env _ c hc)
+  exact hW _ hmem c hc
+
+theorem wf_callees (hW : P.Wf) (ρ : Nat → Nat) {j : Nat} (hj : j < P.n) :
+    ∀ c ∈ callees env ρ (P.node j).body, c < P.n :=
+  fun c hc => wf_allCallees P hW hj c (callees_sub_all env ρ _ c hc)
 
 theorem evalM_fuel {st : List Nat} {read : Nat → St → Res Fetched} (hR : ReadFuel P st read) :
-    ∀ (e : Expr) (s : St), (∀ c ∈ callees env e, c < P.n) → s.stack = st →
+    ∀ (e : Expr) (s : St), (∀ c ∈ allCallees e, c < P.n) → s.stack = st →
       NoOOF (evalM env read e s) ∧
       ∀ v hs s', evalM env read e s = .ok (v, hs, s') → s'.stack = st := by
   intro e
@@ -80,7 +84,7 @@ theorem evalM_fuel {st : List Nat} {read : Nat → St → Res Fetched} (hR : Rea
     subst h3; exact hs
   | call j =>
     intro s hc hs
-    obtain ⟨h1, h2⟩ := hR j s (hc j (by simp [callees])) hs
+    obtain ⟨h1, h2⟩ := hR j s (hc j (by simp [allCallees])) hs
     constructor
     · intro e h
       simp only [evalM] at h
@@ -98,7 +102,7 @@ theorem evalM_fuel {st : List Nat} {read : Nat → St → Res Fetched} (hR : Rea
         subst h3; exact h2 w a b hr
   | union a b iha ihb =>
     intro s hc hs
-    obtain ⟨a1, a2⟩ := iha s (fun c h => hc c (by simp [callees, h])) hs
+    obtain ⟨a1, a2⟩ := iha s (fun c h => hc c (by simp [allCallees, h])) hs
     constructor
     · intro e h
       simp only [evalM] at h
@@ -108,7 +112,7 @@ theorem evalM_fuel {st : List Nat} {read : Nat → St → Res Fetched} (hR : Rea
         obtain ⟨x, h1, s1⟩ := r
         rw [ha] at h
         simp only at h
-        obtain ⟨b1, _⟩ := ihb s1 (fun c h => hc c (by simp [callees, h])) (a2 x h1 s1 ha)
+        obtain ⟨b1, _⟩ := ihb s1 (fun c h => hc c (by simp [allCallees, h])) (a2 x h1 s1 ha)
         cases hb : evalM env read b s1 with
         | error e' => rw [hb] at h; injection h with h; subst h; exact b1 _ hb
         | ok r2 => obtain ⟨y, h2, s2⟩ := r2; rw [hb] at h; cases h
@@ -120,7 +124,7 @@ theorem evalM_fuel {st : List Nat} {read : Nat → St → Res Fetched} (hR : Rea
         obtain ⟨x, h1, s1⟩ := r
         rw [ha] at h
         simp only at h
-        obtain ⟨_, b2⟩ := ihb s1 (fun c h => hc c (by simp [callees, h])) (a2 x h1 s1 ha)
+        obtain ⟨_, b2⟩ := ihb s1 (fun c h => hc c (by simp [allCallees, h])) (a2 x h1 s1 ha)
         cases hb : evalM env read b s1 with
         | error e' => rw [hb] at h; cases h
         | ok r2 =>
@@ -130,7 +134,7 @@ theorem evalM_fuel {st : List Nat} {read : Nat → St → Res Fetched} (hR : Rea
           subst h3; exact b2 y h2 s2 hb
   | inter a b iha ihb =>
     intro s hc hs
-    obtain ⟨a1, a2⟩ := iha s (fun c h => hc c (by simp [callees, h])) hs
+    obtain ⟨a1, a2⟩ := iha s (fun c h => hc c (by simp [allCallees, h])) hs
     constructor
     · intro e h
       simp only [evalM] at h
@@ -140,7 +144,7 @@ theorem evalM_fuel {st : List Nat} {read : Nat → St → Res Fetched} (hR : Rea
         obtain ⟨x, h1, s1⟩ := r
         rw [ha] at h
         simp only at h
-        obtain ⟨b1, _⟩ := ihb s1 (fun c h => hc c (by simp [callees, h])) (a2 x h1 s1 ha)
+        obtain ⟨b1, _⟩ := ihb s1 (fun c h => hc c (by simp [allCallees, h])) (a2 x h1 s1 ha)
         cases hb : evalM env read b s1 with
         | error e' => rw [hb] at h; injection h with h; subst h; exact b1 _ hb
         | ok r2 => obtain ⟨y, h2, s2⟩ := r2; rw [hb] at h; cases h
@@ -152,7 +156,7 @@ theorem evalM_fuel {st : List Nat} {read : Nat → St → Res Fetched} (hR : Rea
         obtain ⟨x, h1, s1⟩ := r
         rw [ha] at h
         simp only at h
-        obtain ⟨_, b2⟩ := ihb s1 (fun c h => hc c (by simp [callees, h])) (a2 x h1 s1 ha)
+        obtain ⟨_, b2⟩ := ihb s1 (fun c h => hc c (by simp [allCallees, h])) (a2 x h1 s1 ha)
         cases hb : evalM env read b s1 with
         | error e' => rw [hb] at h; cases h
         | ok r2 =>
@@ -162,11 +166,47 @@ theorem evalM_fuel {st : List Nat} {read : Nat → St → Res Fetched} (hR : Rea
           subst h3; exact b2 y h2 s2 hb
   | ite i a b iha ihb =>
     intro s hc hs
-    simp only [callees] at hc
     simp only [evalM]
     split
-    · rename_i h; rw [if_pos h] at hc; exact iha s hc hs
-    · rename_i h; rw [if_neg h] at hc; exact ihb s hc hs
+    · exact iha s (fun c h => hc c (by simp [allCallees, h])) hs
+    · exact ihb s (fun c h => hc c (by simp [allCallees, h])) hs
+  | gate g a ihg iha =>
+    intro s hc hs
+    obtain ⟨g1, g2⟩ := ihg s (fun c h => hc c (by simp [allCallees, h])) hs
+    constructor
+    · intro e h
+      simp only [evalM] at h
+      cases hg : evalM env read g s with
+      | error e' => rw [hg] at h; injection h with h; subst h; exact g1 _ hg
+      | ok r =>
+        obtain ⟨x, h1, s1⟩ := r
+        rw [hg] at h
+        simp only at h
+        obtain ⟨a1, _⟩ := iha s1 (fun c h => hc c (by simp [allCallees, h])) (g2 x h1 s1 hg)
+        split at h
+        · cases ha : evalM env read a s1 with
+          | error e' => rw [ha] at h; injection h with h; subst h; exact a1 _ ha
+          | ok r2 => obtain ⟨y, h2, s2⟩ := r2; rw [ha] at h; cases h
+        · cases h
+    · intro v hs' s' h
+      simp only [evalM] at h
+      cases hg : evalM env read g s with
+      | error e' => rw [hg] at h; cases h
+      | ok r =>
+        obtain ⟨x, h1, s1⟩ := r
+        rw [hg] at h
+        simp only at h
+        obtain ⟨_, a2⟩ := iha s1 (fun c h => hc c (by simp [allCallees, h])) (g2 x h1 s1 hg)
+        split at h
+        · cases ha : evalM env read a s1 with
+          | error e' => rw [ha] at h; cases h
+          | ok r2 =>
+            obtain ⟨y, h2, s2⟩ := r2
+            rw [ha] at h
+            injection h with h; injection h with _ h; injection h with _ h3
+            subst h3; exact a2 y h2 s2 ha
+        · injection h with h; injection h with _ h; injection h with _ h3
+          subst h3; exact g2 x h1 s1 hg
 
 theorem iter_le_of_lt (stamp : Nat) : IterationStamp.iteration stamp < 256 := by
   simp only [IterationStamp.iteration, Nat.shiftRight_zero]
@@ -195,18 +235,18 @@ theorem incr_iter (stamp stamp' : Nat) (hs : stamp < 2^16)
 /-- the head loop: no `outOfFuel`, and the stack is popped. -/
 theorem loop_fuel {rest : List Nat} (j : Nat) (hj : j < P.n) (hW : P.Wf)
     {read : Nat → St → Res Fetched} (hR : ReadFuel P (j :: rest) read) :
-    ∀ (fuel stamp : Nat) (outer : Bool) (s : St), stamp < 2^16 →
+    ∀ (fuel stamp : Nat) (s : St), stamp < 2^16 →
       IterationStamp.iteration stamp ≤ 200 →
       fuel + IterationStamp.iteration stamp = 201 → s.stack = j :: rest →
-      NoOOF (executeMaybeIterate P env read j outer fuel stamp s) ∧
-      ∀ v hs s', executeMaybeIterate P env read j outer fuel stamp s = .ok (v, hs, s') →
+      NoOOF (executeMaybeIterate P env read j fuel stamp s) ∧
+      ∀ v hs s', executeMaybeIterate P env read j fuel stamp s = .ok (v, hs, s') →
         s'.stack = rest := by
   intro fuel
   induction fuel with
-  | zero => intro stamp outer s _ h1 h2; omega
+  | zero => intro stamp s _ h1 h2; omega
   | succ fuel ih =>
-    intro stamp outer s hst hit hsum hs
-    obtain ⟨e1, e2⟩ := evalM_fuel P env hR (P.node j).body s (wf_callees P env hW hj) hs
+    intro stamp s hst hit hsum hs
+    obtain ⟨e1, e2⟩ := evalM_fuel P env hR (P.node j).body s (wf_allCallees P hW hj) hs
     have hrec : ∀ stamp', IterationStamp.increment_iteration stamp = some stamp' →
         stamp' < 2^16 ∧ IterationStamp.iteration stamp' ≤ 200 ∧
         fuel + IterationStamp.iteration stamp' = 201 := by
@@ -244,7 +284,7 @@ theorem loop_fuel {rest : List Nat} (j : Nat) (hj : j < P.n) (hW : P.Wf)
                 rw [hinc] at h
                 obtain ⟨a, b, c⟩ := hrec stamp' hinc
                 simp only at h
-                refine (ih stamp' true _ a b c ?_).1 err h
+                refine (ih stamp' _ a b c ?_).1 err h
                 exact hs1'
     · intro v hs' s' h
       rw [executeMaybeIterate] at h
@@ -280,7 +320,7 @@ theorem loop_fuel {rest : List Nat} (j : Nat) (hj : j < P.n) (hW : P.Wf)
                 rw [hinc] at h
                 obtain ⟨a, b, c⟩ := hrec stamp' hinc
                 simp only at h
-                refine (ih stamp' true _ a b c ?_).2 v hs' s' h
+                refine (ih stamp' _ a b c ?_).2 v hs' s' h
                 exact hs1'
 
 /-- `execute` with enough depth fuel: no `outOfFuel`, stack restored. -/
@@ -379,7 +419,7 @@ theorem execute_fuel (hW : P.Wf) : ∀ (d j : Nat) (s : St), j < P.n → j ∉ s
                 rw [hcache] at h
                 rw [(ih c s' hc (by simpa using hcs) hnd' hlt' hlen').2 v hs1 s1 h]; exact hs'
     unfold execute
-    exact loop_fuel P env j hj hW hR loopFuel (IterationStamp.initial 0) false _ (by decide) (by decide)
+    exact loop_fuel P env j hj hW hR loopFuel (IterationStamp.initial 0) _ (by decide) (by decide)
       (by decide) rfl
 
 /-- **the model's fuel suffices**: a request for an existing node of a well-formed program never
